@@ -26,6 +26,7 @@ package storage
 //@   ensures [ok] result == nil ==> Dex[mkkey(rls.Name, rls.Version)] && Dst == store(old(Dst), mkkey(rls.Name, rls.Version), rls.Info.Status)
 //@   ensures [failed] result != nil ==> Dst == old(Dst)
 //@   ensures [absent] !old(Dex)[mkkey(rls.Name, rls.Version)] ==> result != nil
+//@   ensures [C03] [attempt-recorded] Dattempt == store(old(Dattempt), mkkey(rls.Name, rls.Version), rls.Info.Status)
 //@   ensures [frame] Dex == old(Dex) && Dname == old(Dname) && Dver == old(Dver)
 
 //@ func (*Storage).Delete
@@ -111,6 +112,7 @@ package storage
 //@   ensures [failure-adds-nothing] err != nil ==> forall k string :: Dex[k] ==> old(Dex)[k]
 //@   ensures [other-statuses-untouched] forall k string :: k != mkkey(rls.Name, rls.Version) ==> Dst[k] == old(Dst)[k] && Dname[k] == old(Dname)[k] && Dver[k] == old(Dver)[k]
 //@   ensures [well-formed] ledgerWF()
+//@   ensures [C03] [attempt-recorded] Dattempt == store(old(Dattempt), mkkey(rls.Name, rls.Version), rls.Info.Status) || (err != nil && Dattempt == old(Dattempt))
 
 //@ func Init
 //@   props C01
